@@ -15,6 +15,7 @@ From Tx Require Model.OpsC09.
 From Tx Require Model.OpsC12.
 From Tx Require Model.OpsC04.
 From Tx Require Model.OpsC06.
+From Tx Require Model.OpsC14.
 Local Open Scope Z_scope.
 
 Definition run_op (s : sexp) : sexp :=
@@ -35,6 +36,7 @@ Definition run_op (s : sexp) : sexp :=
       | 12 => OpsC12.op args
       | 4 => OpsC04.op args
       | 6 => OpsC06.op args
+      | 14 => OpsC14.op args
       | _ => bad
       end
   | _ => bad
